@@ -135,6 +135,204 @@ theorem C18_decode_total (bs : Bytes) (hwf : Varint.WF bs) :
     · rfl
     · congr 1; omega
 
+
+/-! ### a non-contiguous payload `Buf` -/
+
+def NoEmpty (cs : List Bytes) : Prop := ∀ c ∈ cs, c ≠ []
+
+/-- the one-chunk datagram with the same bytes -/
+def flat (e : EncM) : Enc := { hdr := e.hdr, len := e.len, pos := e.pos, payload := e.payload.flatten }
+
+private theorem advChunks_flatten (cs : List Bytes) (k : Nat) :
+    (advChunks cs k).flatten = cs.flatten.drop k := by
+  induction cs generalizing k with
+  | nil => simp [advChunks]
+  | cons c cs ih =>
+    unfold advChunks
+    by_cases h : k < c.length
+    · rw [if_pos h]
+      simp only [List.flatten_cons]
+      rw [List.drop_append_of_le_length (by omega)]
+    · rw [if_neg h, ih]
+      simp only [List.flatten_cons]
+      rw [List.drop_append]
+      have : List.drop k c = [] := List.drop_eq_nil_of_le (by omega)
+      rw [this]; rfl
+
+private theorem advChunks_noEmpty (cs : List Bytes) (k : Nat) (h : NoEmpty cs) : NoEmpty (advChunks cs k) := by
+  induction cs generalizing k with
+  | nil => simpa [advChunks] using h
+  | cons c cs ih =>
+    unfold advChunks
+    by_cases hk : k < c.length
+    · rw [if_pos hk]
+      intro x hx
+      rcases List.mem_cons.mp hx with rfl | hx
+      · intro h0
+        have := congrArg List.length h0
+        simp at this; omega
+      · exact h x (List.mem_cons_of_mem _ hx)
+    · rw [if_neg hk]
+      exact ih _ (fun x hx => h x (List.mem_cons_of_mem _ hx))
+
+private theorem flat_advance (e : EncM) (k : Nat) : flat (e.advance k) = (flat e).advance k := by
+  unfold EncM.advance Enc.advance flat
+  by_cases hr : e.len - e.pos > 0
+  · simp only [hr, if_true, advChunks_flatten]
+  · simp only [hr, if_false, advChunks_flatten]
+
+private theorem chunkM_prefix (e : EncM) (hwf : EncWF (flat e)) (hne : NoEmpty e.payload) :
+    (∃ t, e.view = e.chunk ++ t) ∧ (e.view ≠ [] → e.chunk ≠ []) := by
+  obtain ⟨h1, h2⟩ := hwf
+  simp only [flat] at h1 h2
+  have hlen : ((e.hdr.take e.len).drop e.pos).length = e.len - e.pos := by
+    simp [List.length_take]; omega
+  unfold EncM.chunk EncM.view
+  by_cases hr : e.len - e.pos > 0
+  · rw [if_pos hr]
+    refine ⟨⟨_, rfl⟩, ?_⟩
+    intro _ hc
+    have := congrArg List.length hc
+    simp at this; omega
+  · rw [if_neg hr]
+    have hz : (e.hdr.take e.len).drop e.pos = [] := by
+      apply List.eq_nil_of_length_eq_zero; omega
+    rw [hz]
+    cases hp : e.payload with
+    | nil => simp
+    | cons c cs =>
+      refine ⟨⟨cs.flatten, by simp⟩, ?_⟩
+      intro _
+      simpa using hne c (by rw [hp]; exact List.mem_cons_self)
+
+/-- every consumption pattern over the multi-chunk buffer yields a prefix of the one-chunk view -/
+private theorem consumeM_prefix (e : EncM) (hwf : EncWF (flat e)) (hne : NoEmpty e.payload) (ks : List Nat) :
+    ∃ t, e.view = consumeM e ks ++ t := by
+  induction ks generalizing e with
+  | nil => exact ⟨e.view, by simp [consumeM]⟩
+  | cons k ks ih =>
+    obtain ⟨⟨t, ht⟩, _⟩ := chunkM_prefix e hwf hne
+    obtain ⟨hrem, _, _, hadv⟩ := C18_buf_view (flat e) hwf
+    have hv : e.view = (flat e).view := rfl
+    have hk : min k e.chunk.length ≤ (flat e).remaining := by
+      rw [hrem, ← hv, ht]; simp; omega
+    obtain ⟨hwf', hv'⟩ := hadv _ hk
+    rw [← flat_advance] at hwf' hv'
+    have hne' : NoEmpty (e.advance (min k e.chunk.length)).payload := by
+      unfold EncM.advance
+      by_cases hr : e.len - e.pos > 0
+      · simp only [hr, if_true]; exact advChunks_noEmpty _ _ hne
+      · simp only [hr, if_false]; exact advChunks_noEmpty _ _ hne
+    obtain ⟨t', ht'⟩ := ih (e.advance (min k e.chunk.length)) hwf' hne'
+    refine ⟨t', ?_⟩
+    have hv'' : (e.advance (min k e.chunk.length)).view = e.view.drop (min k e.chunk.length) := hv'
+    simp only [consumeM, List.append_assoc, ← ht', hv'']
+    conv => lhs; rw [← List.take_append_drop (min k e.chunk.length) e.view]
+    congr 1
+    rw [ht, List.take_append_of_le_length (by omega)]
+    simp [List.take_eq_take_iff]
+
+/-- reading chunk after chunk to the end (what `copy_to_bytes(remaining())` and `put` do) yields the whole view -/
+private theorem drainM_all (f : Nat) (e : EncM) (hwf : EncWF (flat e)) (hne : NoEmpty e.payload)
+    (hf : e.view.length < f) : drainM f e = e.view := by
+  induction f generalizing e with
+  | zero => omega
+  | succ f ih =>
+    obtain ⟨⟨t, ht⟩, hnz⟩ := chunkM_prefix e hwf hne
+    unfold drainM
+    by_cases hc : e.chunk = []
+    · have : e.view = [] := by
+        by_cases hv : e.view = []
+        · exact hv
+        · exact absurd hc (hnz hv)
+      simp [hc, this]
+    · have hce : e.chunk.isEmpty = false := by simpa using hc
+      rw [hce]
+      simp only [Bool.false_eq_true, if_false]
+      obtain ⟨hrem, _, _, hadv⟩ := C18_buf_view (flat e) hwf
+      have hv : e.view = (flat e).view := rfl
+      have hk : e.chunk.length ≤ (flat e).remaining := by
+        rw [hrem, ← hv, ht]; simp
+      obtain ⟨hwf', hv'⟩ := hadv _ hk
+      rw [← flat_advance] at hwf' hv'
+      have hne' : NoEmpty (e.advance e.chunk.length).payload := by
+        unfold EncM.advance
+        by_cases hr : e.len - e.pos > 0
+        · simp only [hr, if_true]; exact advChunks_noEmpty _ _ hne
+        · simp only [hr, if_false]; exact advChunks_noEmpty _ _ hne
+      have hv'' : (e.advance e.chunk.length).view = e.view.drop e.chunk.length := hv'
+      have hpos : 0 < e.chunk.length := List.length_pos_iff.mpr hc
+      have hle : e.chunk.length ≤ e.view.length := by
+        have := congrArg List.length ht
+        simp at this; omega
+      rw [ih _ hwf' hne' (by rw [hv'']; simp; omega), hv'']
+      conv => rhs; rw [← List.take_append_drop e.chunk.length e.view]
+      congr 1
+      rw [ht]; simp
+
+/-- **The encoded datagram does not depend on how the payload `Buf` is chunked.** For every request stream id
+    `sid < 2^62` divisible by four and every payload handed over as ANY list of non-empty chunks `cs`
+    (`Chain`, `BufList`, …): `remaining()` is the length of `varint(sid/4) ++ cs.flatten` - header plus ALL
+    chunks, not the current one; every chunk/advance pattern yields a prefix of exactly those bytes; reading
+    chunk after chunk to the end (`copy_to_bytes(remaining())`, as h3-quinn does, or `put`) yields exactly
+    those bytes; and they decode to `sid` and the flattened payload. So the wire datagram of a multi-chunk
+    payload is the wire datagram of the same bytes in one piece (`C18_encode_bytes`). -/
+theorem C18_payload_chunking_independent (sid : Nat) (hs : sid < 2^62) (h4 : sid % 4 = 0)
+    (cs : List Bytes) (hne : ∀ c ∈ cs, c ≠ []) :
+    (encodeM sid cs).view = (encode sid cs.flatten).view ∧
+    (encodeM sid cs).view = Varint.encode (sid / 4) ++ cs.flatten ∧
+    (encodeM sid cs).remaining = (Varint.encode (sid / 4) ++ cs.flatten).length ∧
+    (∀ ks, ∃ t, Varint.encode (sid / 4) ++ cs.flatten = consumeM (encodeM sid cs) ks ++ t) ∧
+    drainM ((encodeM sid cs).remaining + 1) (encodeM sid cs) = Varint.encode (sid / 4) ++ cs.flatten ∧
+    decode (drainM ((encodeM sid cs).remaining + 1) (encodeM sid cs)) = .ok sid cs.flatten := by
+  have hflat : flat (encodeM sid cs) = encode sid cs.flatten := rfl
+  have hwf : EncWF (flat (encodeM sid cs)) := by rw [hflat]; exact encode_wf sid hs _
+  have hv : (encodeM sid cs).view = Varint.encode (sid / 4) ++ cs.flatten := by
+    have : (encodeM sid cs).view = (flat (encodeM sid cs)).view := rfl
+    rw [this, hflat, view_encode sid hs]
+  have hr : (encodeM sid cs).remaining = (Varint.encode (sid / 4) ++ cs.flatten).length := by
+    have : (encodeM sid cs).remaining = (flat (encodeM sid cs)).remaining := rfl
+    rw [this, hflat]; exact (C18_encode_bytes sid hs h4 _).2.2
+  have hd : drainM ((encodeM sid cs).remaining + 1) (encodeM sid cs) = Varint.encode (sid / 4) ++ cs.flatten := by
+    rw [drainM_all _ _ hwf hne (by rw [hr, hv]; omega), hv]
+  refine ⟨by rw [hv, view_encode sid hs], hv, hr, ?_, hd, ?_⟩
+  · intro ks
+    obtain ⟨t, ht⟩ := consumeM_prefix _ hwf hne ks
+    exact ⟨t, by rw [← hv]; exact ht⟩
+  · rw [hd, ← view_encode sid hs]; exact C18_decode_encode sid hs h4 _
+
+example : drainM 9 (encodeM 8 [[1, 2], [3], [4, 5, 6]]) = [2, 1, 2, 3, 4, 5, 6] := by decide
+example : (encodeM 8 [[1, 2], [3], [4, 5, 6]]).remaining = 7 := by decide
+example : consumeM (encodeM 8 [[1, 2], [3], [4, 5, 6]]) [1, 9, 9, 2] = [2, 1, 2, 3, 4, 5] := by decide
+
+/-- **The error arms of `send_datagram`.** `NotAvailable` and `TooLarge` are handed to the caller as what they
+    are and are NOT connection errors (nothing is stored, the connection goes on); a transport connection error
+    is stored as the connection's error - what the driver and every other handle then report is
+    `convertOrigin` of the FIRST stored error (C05) - and the three answers are pairwise different. -/
+theorem C18_send_error_classes :
+    handleSendError .notAvailable = (.notAvailable, none) ∧
+    handleSendError .tooLarge = (.tooLarge, none) ∧
+    (∀ e, ∃ c, handleSendError (.conn e) = (.conn c, some e)) ∧
+    (∀ a b, (handleSendError a).1 = (handleSendError b).1 → a = b) ∧
+    (∀ a, (handleSendError a).2.isSome ↔ ∃ e, a = .conn e) := by
+  refine ⟨rfl, rfl, fun e => ⟨_, rfl⟩, ?_, ?_⟩
+  · intro a b h
+    cases a <;> cases b <;> simp_all [handleSendError]
+  · intro a
+    cases a <;> simp [handleSendError]
+
+/-- D-18b (open): for an idle timeout the sender's answer is not the connection's outcome - the driver and
+    every other handle say `Timeout`, `send_datagram` says `Remote(Timeout)`. For every other transport
+    condition that is the first error the two agree. -/
+theorem C18_send_error_is_outcome_partial (e : CE) (h : e ≠ .timeout) :
+    (handleSendError (.conn e)).1 = .conn (convertOrigin (.quic e)) := by
+  cases e <;> simp_all [handleSendError, convertOrigin]
+
+theorem C18_D18b_witness :
+    (handleSendError (.conn .timeout)).1 ≠ .conn (convertOrigin (.quic .timeout)) := by decide
+
+example : (handleSendError (.conn (.app 7))).1 = .conn (.remote (.app 7)) := rfl
+
 example : decode [0x01, 0x78, 0x79] = .ok 4 [0x78, 0x79] := by decide
 example : (encode 4 [0x78, 0x79]).view = [0x01, 0x78, 0x79] := by decide
 example : decode [0xff, 0xff, 0xff, 0xff, 0xff, 0xff, 0xff, 0xff] = .datagramError := by decide
